@@ -576,7 +576,22 @@ where
                     let result = match incoming {
                         Some(incoming) => {
                             match incoming {
-                                Ok(frame) => self.on_incoming(frame).await,
+                                Ok(frame) => {
+                                    let close_sent = matches!(
+                                        self.connection.local_state(),
+                                        ConnectionState::CloseSent
+                                    );
+                                    match self.on_incoming(frame).await {
+                                        // Our close is out and the peer sent this frame before it
+                                        // saw it. What the frame asks for can no longer be done,
+                                        // but that is neither a violation by the peer nor a
+                                        // failure of the close.
+                                        Err(ConnectionInnerError::IllegalState) if close_sent => {
+                                            Ok(Running::Continue)
+                                        }
+                                        result => result,
+                                    }
+                                }
                                 Err(err) => Err(err.into()),
                             }
                         },
